@@ -1,7 +1,10 @@
 (* Properties/C20.v — callable front-ends pass exactly the parsed values to the wrapped callable.
    Only statements closed by `exact`, each followed by Print Assumptions.  `facts_gen` is regenerated from the source. *)
 From Coq Require Import Permutation.
-From SPV Require Import Base.Str Model.Front Model.FrontSpec Gen.FactsFront Proofs.FrontProofs.
+(* the argparse engine first: where a name exists on both sides (lookup, spec_fields) the front-end's is meant below *)
+From SPV Require Import Model.Namespace Model.LeafSpec Model.ArgparseM Model.ArgparseMSpec Model.ArgparsePos Model.ArgparsePosSpec
+     Proofs.ArgparsePosProofs.
+From SPV Require Import Base.Str Model.Front Model.FrontSpec Gen.FactsFront Proofs.FrontProofs Proofs.FrontPositional.
 
 (* ---- decorators.main ------------------------------------------------------------------------------------------
    For EVERY well-formed signature and every map of parsed values: set-up succeeds, the callable is reached with
@@ -228,6 +231,64 @@ Theorem C20_cached_refuted : exists (s : sig string) (r : cfreq string) st1 c c'
   /\ snd (cf_request String.eqb facts_gen s st1 r) = Ok c' /\ c <> c'.
 Proof. exact cached_refuted. Qed.
 Print Assumptions C20_cached_refuted.
+
+(* ---- main composed with the argparse engine (Model/ArgparsePos.v) ---------------------------------------------
+   main_acts_gen s = the argparse actions `main` registers, one per field IN THE ORDER OF THE SYNTHESISED DATACLASS
+   (main_fields = the stable partition of the signature: C20_main_sort_is_stable_partition): a positional-only parameter is
+   a positional taking one token, any other parameter the option --name (any nargs `ona`, converter `kof`, default `odflt`).
+   For EVERY well-formed signature whose positional-only parameters have no default, every converter, and every command line
+   made of well-formed option groups and runs of plain one-token blocks, one per positional-only parameter (segs_ok):
+   the parse is the per-field specification (each option decided by its last group, each positional by its block), and when it
+   succeeds the i-th block, converted, is the value the callable receives as its i-th positional-only argument - in
+   SIGNATURE order - while every parameter is bound to the value the namespace holds under its name. *)
+Theorem C20_main_sort_is_stable_partition : forall (V : Type) (s : sig V),
+  main_order facts_gen s = (filter (fun p => negb (has_def p)) s ++ filter has_def s)%list.
+Proof. exact (@main_sort_is_stable_partition_gen). Qed.
+Print Assumptions C20_main_sort_is_stable_partition.
+
+Theorem C20_main_positionals_in_signature_order :
+  forall (V K : Type) (cvt : K -> string -> res V) (veqb : V -> V -> bool)
+         (kof : string -> K) (ona : string -> nargs_t) (odflt : string -> stored V) (ab : bool)
+         (s : sig (stored V)) (segs : list seg),
+  sig_wf s = true -> po_required V s = true -> segs_ok ab (main_acts_gen kof ona odflt s) segs = true ->
+  parse_argsP cvt veqb ab (main_acts_gen kof ona odflt s) (flatten_segs segs)
+    = spec_groups cvt veqb (main_acts_gen kof ona odflt s) (as_groups (positionals (main_acts_gen kof ona odflt s)) segs)
+  /\ forall l, parse_argsP cvt veqb ab (main_acts_gen kof ona odflt s) (flatten_segs segs) = Ok l ->
+       Forall2 (fun p b => values_of cvt veqb (pos_act_gen kof ona odflt p) b = Ok (ns_vals V l (p_name p)))
+               (filter is_po s) (all_blocks segs)
+       /\ c_pos (main_call facts_gen s (ns_vals V l) [] []) = map (fun p => ns_vals V l (p_name p)) (filter is_po s)
+       /\ bind_call s (main_call facts_gen s (ns_vals V l) [] []) = Ok (want_all s (ns_vals V l)).
+Proof. exact (@main_positionals_in_signature_order_gen). Qed.
+Print Assumptions C20_main_positionals_in_signature_order.
+
+(* too few plain tokens (some positional-only parameter gets no block): exit status 2, the callable is not reached *)
+Theorem C20_main_positionals_too_few_exit2 :
+  forall (V K : Type) (cvt : K -> string -> res V) (veqb : V -> V -> bool) kof ona odflt ab (s : sig (stored V)) segs j more,
+  sig_wf s = true -> po_required V s = true -> main_safe facts_gen s = true ->
+  conv_exit2_only cvt (main_acts_gen kof ona odflt s) ->
+  segs_rest ab (main_acts_gen kof ona odflt s) (positionals (main_acts_gen kof ona odflt s)) PStart segs = Some (j :: more) ->
+  parse_argsP cvt veqb ab (main_acts_gen kof ona odflt s) (flatten_segs segs) = Err (Exit 2)
+  /\ main_run facts_gen s (Err (Exit 2)) [] [] = (None, Err (Exit 2)).
+Proof. exact (@main_positionals_too_few_safe_gen). Qed.
+Print Assumptions C20_main_positionals_too_few_exit2.
+
+(* non-vacuity: def f(a: int, b: str, /, c: str = 'c', *, d: int); fields a, b, d, c; argv 1 --d 4 zz --c x *)
+Definition fp_sig : sig (stored ival) :=
+  [mkparam "a" PosOnly AInt None Immut; mkparam "b" PosOnly AStr None Immut;
+   mkparam "c" PosOrKw AStr (Some (SOne (VS "c"))) Immut; mkparam "d" KwOnly AInt None Immut].
+Definition fp_kof (n : string) : iconv := if String.eqb n "a" || String.eqb n "d" then CInt else CStr.
+Definition fp_acts := main_acts_gen fp_kof (fun _ => NaOne) (fun _ => SRaw "c") fp_sig.
+Definition fp_segs : list seg := [SR [["1"]]; SG (mkgroup 2 "--d" ["4"]); SR [["zz"]]; SG (mkgroup 3 "--c" ["x"])].
+Example C20_positionals_nonvacuous :
+  sig_wf fp_sig = true /\ po_required ival fp_sig = true /\ main_safe facts_gen fp_sig = true
+  /\ map a_dest fp_acts = ["a"; "b"; "d"; "c"] /\ positionals fp_acts = [0; 1]
+  /\ flatten_segs fp_segs = ["1"; "--d"; "4"; "zz"; "--c"; "x"]
+  /\ segs_ok true fp_acts fp_segs = true /\ all_blocks fp_segs = [["1"]; ["zz"]]
+  /\ iparse_argsP true fp_acts (flatten_segs fp_segs)
+     = Ok [("a", SOne (VI 1)); ("b", SOne (VS "zz")); ("d", SOne (VI 4)); ("c", SOne (VS "x"))]
+  /\ segs_rest true fp_acts (positionals fp_acts) PStart [SR [["1"]]; SG (mkgroup 2 "--d" ["4"])] = Some [1]
+  /\ iparse_argsP true fp_acts ["1"; "--d"; "4"] = Err (Exit 2).
+Proof. vm_compute. repeat split; reflexivity. Qed.
 
 (* non-vacuity: a signature with positional-only, defaulted and keyword-only parameters inside the theorems' domain *)
 Example C20_nonvacuous :
